@@ -48,7 +48,67 @@ func runnerAt(goit, base string, T *Tables, tz int) *Runner {
 	return r
 }
 
+// abstractOps maps the recorded modifying operations of one run to the operation kinds of spec/GoitFS.tla.
+func abstractOps(base string, ops []FSOp) []any {
+	out := []any{}
+	rel := func(p string) string { return strings.TrimPrefix(p, base+"/root/") }
+	for i := range ops {
+		o := &ops[i]
+		if !o.Modifying() {
+			continue
+		}
+		r := rel(o.Path)
+		cl := fileClass(base, o.Path)
+		switch {
+		case strings.HasPrefix(r, ".goit.tmp"):
+			if o.Kind == "rename" {
+				out = append(out, "install")
+			} else {
+				out = append(out, "initdir")
+			}
+		case strings.HasPrefix(r, ".goit/tmp-") && o.Kind != "rename", strings.HasPrefix(strings.TrimPrefix(o.Path, base+"/home/"), "tmp-") && o.Kind != "rename":
+			// temporary file being created / written: no visible effect
+		case o.Kind == "rename":
+			to := fileClass(base, o.Path2)
+			switch {
+			case cl == "branch" && to == "branch":
+				out = append(out, "renref")
+			case to == "object":
+				out = append(out, "putobj")
+			case to == "branch":
+				out = append(out, "setref")
+			case to == "HEAD":
+				out = append(out, "sethead")
+			case to == "index":
+				out = append(out, "setidx")
+			case to == "config" || to == "gconfig":
+				out = append(out, "cfg")
+			default:
+				out = append(out, "other")
+			}
+		case o.Kind == "mkdir" && (cl == "objdir" || cl == "metadir"):
+			// fan-out and log directories: no visible effect
+		case cl == "hlog" || cl == "blog":
+			if o.Kind == "unlink" {
+				out = append(out, "dellog")
+			} else {
+				out = append(out, "log")
+			}
+		case cl == "branch" && o.Kind == "unlink":
+			out = append(out, "delref")
+		case cl == "config" || cl == "gconfig":
+			out = append(out, "cfg")
+		case cl == "wtfile":
+			out = append(out, "wt")
+		default:
+			out = append(out, "other:"+o.Kind+":"+cl)
+		}
+	}
+	return out
+}
+
 type fsStats struct {
+	Protocol                                                                        []M // recorded runs abstracted for the protocol-conformance check (GoitFSTrace)
 	CrashPoints, FaultPoints, Unreached, KillChecked, KillMismatch, Commands, Drift int
 	ByCmd                                                                           map[string]int
 	Samples                                                                         []any
@@ -144,6 +204,9 @@ func fsEnumerate(goit string, c *Chunk, evs []M, contents map[string][]byte, tz 
 				preLine = finLine
 				continue
 			}
+		}
+		if x.Res == "ok" {
+			stats.Protocol = append(stats.Protocol, M{"cmd": name, "ops": abstractOps(base, ops), "line": describeEv(ev)})
 		}
 		cmdEv := cloneEv(ev)
 		av := []any{}
